@@ -32,8 +32,8 @@ GRIDS = {
 }
 OPS = ['h', 'cet', 'utc', 'q15', 'short', 'dunit', 'same', 'split', 'costs']
 FINALS = ['h', 'cet', 'q15', 'short', 'utc', 'dunit']
-PORTFOLIOS = ['dicts', 'wrappers', 'orderbook', 'classes']
-NAIVE_ONLY = {'orderbook', 'classes'}      # order dates are naive: EAO compares them with the grid points as they are
+PORTFOLIOS = ['dicts', 'wrappers', 'orderbook', 'classes', 'linked']
+NAIVE_ONLY = {'orderbook', 'classes', 'linked'}      # order dates are naive: EAO compares them with the grid points as they are
 
 
 def cases(tier, seed):
@@ -99,14 +99,26 @@ def mk_portfolio(D, kind):
         pl.start, pl.end, pl.wacc = h(1), h(4), D('wacc_pl', lo=0)
         mc = eao.assets.MultiCommodityContract(name='mc', nodes=[nA, nB], price='q', min_cap=D('mc_min', hi=0), max_cap=D('mc_max', lo=0),
                                                factors_commodities=[1.0, 0.5], start=h(0), end=h(3), wacc=D('wacc_mc', lo=0))
+        # take quantities as numpy arrays (as the docstring describes), one array object shared by min_take and max_take bounds of the periods
+        xt_vals = np.array([D('xt_take', lo=0), D('xt_take2', lo=0)], dtype=object)
         xt = shapes.mk_transport(D, 'xt', nA, nB, eff=0.5, cls=eao.assets.ExtendedTransport,
-                                 max_take={'start': [h(0)], 'end': [h(2)], 'values': [D('xt_take', lo=0)]})
+                                 max_take={'start': np.array([h(0), h(2)]), 'end': np.array([h(2), h(4)]), 'values': xt_vals},
+                                 min_take={'start': [h(1)], 'end': [h(3)], 'values': np.array([0.0])})
         xt.start, xt.end = h(1), h(3)
         st = shapes.mk_storage(D, 'sto', nB, eff=0.75)
         st.start, st.end, st.wacc = h(0), h(2), 0
         mG = shapes.mk_market(D, 'mG', nG, 0, 'p')
         mB = shapes.mk_market(D, 'mB', nB, 0, 'q', wacc=0)
         return eao.portfolio.Portfolio([pl, mc, xt, st, mG, mB])
+    if kind == 'linked':
+        # LinkedAsset: lags given in main time units are converted to grid steps in every set-up (15-minute grid: 1 h = 4 steps)
+        nP = shapes.nodes('P')[0]
+        ga = shapes.mk_plant(D, 'ga', [nP], 0, price='p', fuel=False, mr=0, sym_cap=True)
+        gb = shapes.mk_plant(D, 'gb', [nP], 0, price='q', fuel=False, mr=2, tar=1, sym_cap=True)
+        la = eao.portfolio.LinkedAsset(eao.portfolio.Portfolio([ga, gb]), asset1_variable=('ga', 'disp', 'P'), asset2_variable=('gb', 'bool_on', None),
+                                       name='link', nodes=nP, time_back=1, time_forward=1, asset2_time_already_running=1)
+        m = shapes.mk_market(D, 'mP', nP, 0, 'p', ec=True)
+        return eao.portfolio.Portfolio([la, m])
     if kind == 'orderbook':
         # the order book is handled right after an asset with its own window and discount rate (stale grid caches would show)
         m = shapes.mk_market(D, 'mB', nB, 0, 'p', ec=True)
